@@ -18,7 +18,11 @@ ASSUMPTIONS = [
 ]
 BOUNDS = {'quick': 'every 32-byte private key, both flag bytes (compressed / uncompressed), every address-hash; two successive key-generation calls',
           'thorough': 'same'}
-OUTSIDE = '"a different passphrase fails" (true only with cryptographic probability - not a solver statement), the EC-multiplied mode beyond the entropy data flow, agreement with the BIP38 test vectors (needs real scrypt/AES)'
+OUTSIDE = 'unicode passphrases beyond the four listed strings (normalisation is C code: the NFC obligation is decided on concrete strings, not by the solver); "a different passphrase fails" (true only with cryptographic probability - not a solver statement), the EC-multiplied mode beyond the entropy data flow, agreement with the BIP38 test vectors (needs real scrypt/AES)'
+
+
+# the BIP38 unicode test vector, compatibility characters (NFKC would fold them), a decomposed character (NFC composes it)
+PASSPHRASES = ['passphrase', '\u03d2\u0301\u0000\U00010400\U0001f4a9', '\ufb01\u2116\u00bd', 'A\u030a']
 
 
 def _mods():
@@ -73,11 +77,12 @@ def setup(ex):
     c12.setup(ex)
     K, E = _mods()
     _S.clear()
-    _S.update(scrypt=stubs.HashStub('scrypt', 64, injective=False), aes=stubs.HashStub('aes', 32, injective=False), aes_log=[])
+    _S.update(scrypt=stubs.HashStub('scrypt', 64, injective=False), aes=stubs.HashStub('aes', 32, injective=False), aes_log=[], pw_seen=[])
     ex.axiom_sources = ex.axiom_sources + [_S['scrypt'], _S['aes']]
 
     def scrypt_hash(password, salt, key_len=64, N=16384, r=8, p=8, *a, **k):
         pw = password.encode('utf-8') if isinstance(password, str) else password
+        _S['pw_seen'].append(bytes(pw) if isinstance(pw, (bytes, bytearray)) else pw)
         return _S['scrypt'](SBytes([len(pw)]) + SBytes.lift(pw) + SBytes.lift(salt))[:key_len]
     shims.install(K, scrypt_hash=scrypt_hash, AES=FakeAES, str=shims.StrShim)
 
@@ -90,36 +95,49 @@ def _eq(a, b):
 
 def h_plain_roundtrip(ex):
     """bip38_decrypt(bip38_encrypt(k, address, pw), pw) returns k, the address hash and the compression flag; the
-    envelope is 0142 | flag | addresshash | 2 x 16 encrypted bytes | checksum"""
+    envelope is 0142 | flag | addresshash | 2 x 16 encrypted bytes | checksum; the passphrase enters the key derivation
+    NFC-normalised (BIP38), so the same text in another unicode form opens the key"""
     K, E = _mods()
+    import unicodedata
+    pw = ex.choose('passphrase', PASSPHRASES)
+    nfc = unicodedata.normalize('NFC', pw)
     if ex.concrete:
         key = ex.bytes('private_key', 32)
         comp = ex.choose('compressed', [True, False])
         address = ex.bytes('address_text', 34)
         flag = b'\xe0' if comp else b'\xc0'
-        enc = K.bip38_encrypt(bytes(key).hex(), bytes(address), 'correct horse', flag)
+        enc = K.bip38_encrypt(bytes(key).hex(), bytes(address), pw, flag)
         raw = c12._b58dec(enc)
         ah = E.double_sha256(bytes(address))[:4]
         ex.check(len(raw) == 43 and raw[:3] == b'\x01\x42' + flag and raw[3:7] == ah, 'bip38-envelope-header')
         ex.check(raw[39:] == E.double_sha256(raw[:39])[:4], 'bip38-envelope-checksum')
-        priv, ah2, c2, _ = K.bip38_decrypt(enc, 'correct horse')
+        priv, ah2, c2, _ = K.bip38_decrypt(enc, pw)
         ex.check(priv == bytes(key), 'bip38-roundtrip-private-key')
         ex.check(ah2 == ah, 'bip38-roundtrip-address-hash')
         ex.check(c2 == comp, 'bip38-roundtrip-compression-flag')
+        # NFC: the envelope equals the one made from the NFC form, and the BIP38 document's unicode vector opens
+        ok = enc == K.bip38_encrypt(bytes(key).hex(), bytes(address), nfc, flag) and K.bip38_decrypt(enc, nfc)[0] == bytes(key)
+        if pw == PASSPHRASES[1]:
+            v = K.bip38_decrypt('6PRW5o9FLp4gJDDVqJQKJFTpMvdsSGJxMYHtHaQBF3ooa8mwD69bapcDQn', pw)
+            ok = ok and v[0].hex() == '64eeab5f9be2a01a8365a579511eb3373c87c40da6d2a25f05bda68fe077b66e'
+        ex.check(ok, 'bip38-encrypt-passphrase-nfc-normalised')
+        ex.check(ok, 'bip38-decrypt-passphrase-nfc-normalised')
         return
     H = c12._H['d']
     key = ex.bytes('private_key', 32)
     comp = ex.choose('compressed', [True, False])
     flag = b'\xe0' if comp else b'\xc0'
     address = ex.bytes('address_text', 34)
-    pw = 'correct horse'
     _S['aes_log'].clear()
+    del _S['pw_seen'][:]
     enc = K.bip38_encrypt(key.hex(), address, pw, flag)
     data = enc.data
     addresshash = H(address)[:4]
     ex.check(len(data) == 43 and _eq(data[:3], b'\x01\x42' + flag) and _eq(data[3:7], addresshash), 'bip38-envelope-header')
     ex.check(_eq(data[39:], H(data[:39])[:4]), 'bip38-envelope-checksum')
+    ex.check(_S['pw_seen'] == [nfc.encode('utf-8')], 'bip38-encrypt-passphrase-nfc-normalised')
     priv, ah, c2, _ = K.bip38_decrypt(enc, pw)
+    ex.check(_S['pw_seen'] == [nfc.encode('utf-8')] * 2, 'bip38-decrypt-passphrase-nfc-normalised')
     ex.check(_eq(priv, key), 'bip38-roundtrip-private-key')
     ex.check(_eq(ah, addresshash), 'bip38-roundtrip-address-hash')
     ex.check(c2 == comp, 'bip38-roundtrip-compression-flag')
@@ -141,27 +159,79 @@ def h_address_hash_check(ex, cls):
     double_sha256(address of that key) equal the address hash stored in the encrypted key"""
     K, E = _mods()
     if ex.concrete:
-        raise core.HarnessError("no concrete replay for the address-hash obligation (needs a crafted encrypted key)")
+        # replay on the real code (real scrypt / AES): a key encrypted under the first passphrase is imported with the
+        # first and then with the second passphrase; the second decryption yields unrelated bytes, so the import has to
+        # be refused (its address hash cannot match)
+        priv = bytes(ex.bytes('decrypted_key:first passphrase', 32))
+        if not 1 <= int.from_bytes(priv, 'big') < c12.N:
+            priv = bytes(range(1, 33))
+        enc = K.Key(priv).encrypt('first passphrase')
+        fn = getattr(K, cls)._bip38_decrypt
+        for n, pw in enumerate(('first passphrase', 'second passphrase'), 1):
+            try:
+                r = fn(enc, pw, 'bitcoin') if cls == 'Key' else fn(enc, pw, 'bitcoin', 'legacy')
+                accepted = True
+            except K.BKeyError:
+                accepted = False
+            if n == 1:
+                ex.check(accepted, 'bip38-import-rejects-only-wrong-address-hash-call1')
+                ex.check(accepted and r[0] == priv and r[1] is True, 'bip38-import-returns-decrypted-key-call1')
+            else:
+                ex.check(not accepted, 'bip38-import-verifies-address-hash-call2')
+                ex.check(not accepted, 'bip38-import-returns-decrypted-key-call2')
+        return
     H = c12._H['d']
-    priv = ex.bytes('decrypted_key', 32)
-    ah = ex.bytes('stored_address_hash', 4)
-    _S['addr_text'] = ex.bytes('address_text', 34)
     if 'Key' not in _REAL:
         _REAL.update(Key=K.Key, HDKey=K.HDKey)          # the real classes (stubs installed below stay for later paths)
     fn = _REAL[cls].__dict__['_bip38_decrypt']
     fn = fn.__func__ if isinstance(fn, staticmethod) else fn
-    shims.install(K, bip38_decrypt=lambda w, p: (priv, ah, True, {}), Key=_FakeKeyObj, HDKey=_FakeKeyObj)
-    good = _eq(H(_S['addr_text'])[:4], ah)
-    try:
-        r = fn('6P-opaque', 'pw', 'bitcoin') if cls == 'Key' else fn('6P-opaque', 'pw', 'bitcoin', 'segwit')
-        accepted = True
-    except K.BKeyError:
-        accepted = False
-    if accepted:
-        ex.check(good, 'bip38-import-verifies-address-hash')
-        ex.check(_eq(r[0], priv) and r[1] is True, 'bip38-import-returns-decrypted-key')
+    # two successive imports of the SAME encrypted string with two passphrases: decryption yields unrelated bytes per
+    # passphrase; the verdict of each call depends on its own decryption only (nothing remembered from the first)
+    res = {}
+    for pw in ('first passphrase', 'second passphrase'):
+        res[pw] = (ex.bytes('decrypted_key:' + pw, 32), ex.bytes('stored_address_hash:' + pw, 4), ex.bytes('address_text:' + pw, 34))
+    cur = {}
+
+    class _FakeKeyObj2(_FakeKeyObj):
+        def address(self):
+            return cur['addr']
+    shims.install(K, bip38_decrypt=lambda w, p: (res[p][0], res[p][1], True, {}), Key=_FakeKeyObj2, HDKey=_FakeKeyObj2)
+    for n, pw in enumerate(res, 1):
+        priv, ah, cur['addr'] = res[pw]
+        good = _eq(H(cur['addr'])[:4], ah)
+        try:
+            r = fn('6P-opaque', pw, 'bitcoin') if cls == 'Key' else fn('6P-opaque', pw, 'bitcoin', 'segwit')
+            accepted = True
+        except K.BKeyError:
+            accepted = False
+        if accepted:
+            ex.check(good, 'bip38-import-verifies-address-hash-call%d' % n)
+            ex.check(_eq(r[0], priv) and r[1] is True, 'bip38-import-returns-decrypted-key-call%d' % n)
+        else:
+            ex.check(s_not(good), 'bip38-import-rejects-only-wrong-address-hash-call%d' % n)
+
+
+def h_import_keeps_decrypted_key(ex, cls):
+    """Key(<BIP38 string>, password=pw) / HDKey(...): the key object carries exactly the 32 bytes and the compression
+    flag that decryption returned (for every decrypted value, e.g. one ending in the byte 01)"""
+    K, E = _mods()
+    priv = ex.bytes('decrypted_key', 32)
+    comp = ex.choose('compressed', [True, False])
+    sv = shims.IntShim.from_bytes(priv, 'big')
+    ex.assume(s_and(sv >= 1, sv <= c12.N - 1))
+    if 'Key' not in _REAL:
+        _REAL.update(Key=K.Key, HDKey=K.HDKey)
+    C = _REAL[cls]
+    if ex.concrete:
+        enc = _REAL['Key'](bytes(priv), compressed=comp).encrypt('pw')
+        k = C(enc, password='pw')
     else:
-        ex.check(s_not(good), 'bip38-import-rejects-only-wrong-address-hash')
+        shims.install(C, _bip38_decrypt=staticmethod(lambda *a, **kw: (priv, comp)))
+        k = C('6P' + 'R' * 56, password='pw')
+    ex.check(k.secret == sv, 'bip38-import-secret')
+    ex.check(_eq(k.private_byte, priv), 'bip38-import-private-bytes')
+    ex.check(k.compressed == comp, 'bip38-import-compression-flag')
+    ex.check(k.is_private is True, 'bip38-import-classified-private')
 
 
 class _FakeOS:
@@ -184,26 +254,73 @@ def h_fresh_salt(ex):
     """bip38_intermediate_password without explicit owner_salt: the salt that enters the passphrase is drawn by
     os.urandom DURING the call - two successive calls use two different draws"""
     K, E = _mods()
+    import unicodedata
+    pp = ex.choose('passphrase', PASSPHRASES)
+    nfc = unicodedata.normalize('NFC', pp)
     if ex.concrete:
-        a, b = K.bip38_intermediate_password('passphrase'), K.bip38_intermediate_password('passphrase')
+        a, b = K.bip38_intermediate_password(pp), K.bip38_intermediate_password(pp)
         ex.check(a != b, 'two-calls-use-different-salts')
+        # the passphrase code for a fixed salt against an independent computation (hashlib.scrypt, ref.secp)
+        import hashlib
+        from ref import secp
+        salt = bytes(range(0x80, 0x88))
+        pf = hashlib.scrypt(nfc.encode('utf-8'), salt=salt, n=16384, r=8, p=8, dklen=32, maxmem=64 * 1024 * 1024)
+        body = bytes.fromhex('2ce9b3e1ff39e253') + salt + secp.ser(secp.mul(int.from_bytes(pf, 'big')))
+        want = E.base58encode(body + hashlib.sha256(hashlib.sha256(body).digest()).digest()[:4])
+        got = K.bip38_intermediate_password(pp, owner_salt=salt)
+        for n in (1, 2):
+            ex.check(got == want, 'passphrase-enters-scrypt-nfc-normalised-call-%d' % n)
         return
     _FakeOS.calls = []
     seen = []
+    seen_pw = []
 
     def scrypt_spy(password, salt, *a, **k):
         seen.append(salt)
+        seen_pw.append(password)
         raise _Stop()
     shims.install(K, os=_FakeOS, scrypt_hash=scrypt_spy)
     for n in range(2):
         before = len(_FakeOS.calls)
         try:
-            K.bip38_intermediate_password('passphrase')
+            K.bip38_intermediate_password(pp)
         except _Stop:
             pass
+        ex.check(len(seen_pw) == n + 1 and (seen_pw[n].encode('utf-8') if isinstance(seen_pw[n], str) else bytes(seen_pw[n])) == nfc.encode('utf-8'),
+                 'passphrase-enters-scrypt-nfc-normalised-call-%d' % (n + 1))
         drawn = _FakeOS.calls[before:]
         ex.check(len(drawn) == 1 and len(seen) == n + 1 and _same_terms(seen[n], drawn[0]), 'owner-salt-drawn-during-call-%d' % (n + 1))
     ex.check(len(seen) == 2 and not _same_terms(seen[0], seen[1]), 'two-calls-use-different-salts')
+
+
+def h_ec_decrypt_nfc(ex):
+    """EC-multiplied mode: bip38_decrypt derives the pass factor from the NFC form of the passphrase - the form
+    bip38_intermediate_password used when the key was made - so the same passphrase opens the key"""
+    K, E = _mods()
+    import unicodedata
+    pw = ex.choose('passphrase', PASSPHRASES)
+    nfc = unicodedata.normalize('NFC', pw)
+    if ex.concrete:
+        ip = K.bip38_intermediate_password(pw, owner_salt=bytes(range(0x80, 0x88)))
+        r = K.bip38_create_new_encrypted_wif(ip, seed=bytes(range(0x90, 0x90 + 24)))
+        try:
+            ok = K.Key(r['encrypted_wif'], password=pw).address() == r['address']
+        except K.BKeyError:
+            ok = False
+        ex.check(ok, 'bip38-ec-decrypt-passphrase-nfc-normalised')
+        return
+    seen = []
+
+    def scrypt_spy(password, salt, *a, **k):
+        seen.append(password.encode('utf-8') if isinstance(password, str) else bytes(password))
+        raise _Stop()
+    shims.install(K, scrypt_hash=scrypt_spy)
+    d = b'\x01\x43' + ex.bytes('flag', 1) + ex.bytes('address_hash', 4) + ex.bytes('owner_entropy', 8) + ex.bytes('enc', 24) + ex.bytes('chk', 4)
+    try:
+        K.bip38_decrypt(c12.B58(d), pw)
+    except _Stop:
+        pass
+    ex.check(seen == [nfc.encode('utf-8')], 'bip38-ec-decrypt-passphrase-nfc-normalised')
 
 
 def h_fresh_seed(ex):
@@ -242,5 +359,8 @@ def jobs(tier):
     return [Job('plain_roundtrip', h_plain_roundtrip, W=272, setup=setup, budget_s=1500),
             Job('address_hash_check_Key', h_address_hash_check, W=72, setup=setup, params=dict(cls='Key')),
             Job('address_hash_check_HDKey', h_address_hash_check, W=72, setup=setup, params=dict(cls='HDKey')),
+            Job('import_keeps_decrypted_key_Key', h_import_keeps_decrypted_key, W=272, setup=setup, params=dict(cls='Key')),
+            Job('import_keeps_decrypted_key_HDKey', h_import_keeps_decrypted_key, W=272, setup=setup, params=dict(cls='HDKey')),
+            Job('ec_decrypt_nfc', h_ec_decrypt_nfc, W=72, setup=setup),
             Job('fresh_salt', h_fresh_salt, W=272, setup=setup),
             Job('fresh_seed', h_fresh_seed, W=272, setup=setup)]
